@@ -18,9 +18,9 @@
 } @*/
 #include "c14_sv.h"
 /* slot j: old elements [0, m_size) untouched, new elements [m_size, i) value-initialised and LIVE, the rest RAW */
-#define SPEC_INV(j) ((j) >= CAP || ((j) < self->m_size ? ((j) != g_k || (self->_data[j].v == g_old_k.v && self->_data[j].g_state == g_old_k.g_state)) \
-                                   : (j) < i ? (self->_data[j].g_state == ELEM_LIVE && self->_data[j].v == 0) \
-                                             : self->_data[j].g_state == ELEM_RAW))
+#define SPEC_INV(j) ((j) >= CAP || ((j) < self->m_size ? ((j) != g_k || (ELEM_V(&self->_data[j]) == ELEM_V(&g_old_k) && ELEM_ST(&self->_data[j]) == ELEM_ST(&g_old_k))) \
+                                   : (j) < i ? (ELEM_ST(&self->_data[j]) == ELEM_LIVE && ELEM_V(&self->_data[j]) == 0) \
+                                             : ELEM_ST(&self->_data[j]) == ELEM_RAW))
 #define C14_HAVE_SV
 #include "cxx/sv.c"
 #include "c14_harness.h"
@@ -47,8 +47,8 @@ void harness(void)
     V(__CPROVER_assert(v._data == storage, "storage pointer untouched");)
     V(__CPROVER_assert(v.m_size == want && SV_SIZE_OK(&v), "size' == min(n, N)");)
     if (k < cap) {
-        if (k < m && k < want) V(__CPROVER_assert(v._data[k].v == g_old_k.v, "kept elements keep their values");)
-        if (k >= m && k < want) V(__CPROVER_assert(v._data[k].v == 0, "new elements are value-initialised");)
+        if (k < m && k < want) V(__CPROVER_assert(ELEM_V(&v._data[k]) == ELEM_V(&g_old_k), "kept elements keep their values");)
+        if (k >= m && k < want) V(__CPROVER_assert(ELEM_V(&v._data[k]) == 0, "new elements are value-initialised");)
         L(__CPROVER_assert(SV_SLOT_OK(&v, k), "SV: slots below m_size LIVE, the others RAW (dropped elements destroyed exactly once)");)
     }
     CANARY("resize end reachable");
